@@ -36,6 +36,7 @@ func init() {
 			{Name: "readfaults", QShards: 4, TShards: 12, Run: c07ReadFaults},
 			{Name: "readfaults-large", QShards: 12, TShards: 16, Run: c07ReadFaultsLarge},
 			{Name: "readfaults-giant", QShards: 6, TShards: 12, Run: c07ReadFaultsGiant},
+			{Name: "histories", QShards: 2, TShards: 6, Run: codecHistories(c06Formats...)},
 			{Name: "writefaults", QShards: 2, TShards: 8, Run: c07WriteFaults},
 			{Name: "writefaults-large", QShards: 10, TShards: 16, Run: c07WriteFaultsLarge},
 			{Name: "filefaults", Thorough: true, Run: c07FileFaults},
@@ -475,12 +476,18 @@ func c07WriteFaults(c *Ctx) {
 						return
 					}
 					// the same fault through destinations that have more methods than Write
-					for dk := 1; dk <= 3; dk++ {
+					for dk := 1; dk <= 7; dk++ {
 						if !(kk%3 == dk%3 || kk >= L-2 || kk < 2) {
 							continue
 						}
-						lw2 := &limitWriter{k: kk}
+						// kinds 4..7: the same four method sets over a destination whose failures are NOT sticky (a
+						// fixed-capacity buffer refuses the piece that does not fit and accepts smaller ones after it):
+						// whatever was refused is missing from the output, so Write must still report it
+						lw2 := &limitWriter{k: kk, nonSticky: dk >= 4}
 						dst, dname := faultDest(dk, lw2)
+						if dk >= 4 {
+							dname += ", which refuses a call that does not fit and accepts later ones that do"
+						}
 						if err := w.write(dst); err == nil && (lw2.failed > 0 || len(lw2.buf) < L) {
 							k.Input("writer_accepts_bytes", kk)
 							k.Input("destination", dname)
